@@ -839,6 +839,18 @@ func runShared(r *common.Rand, tier string, o *common.Out, replay string) {
 			}
 		}
 	}
+	// large frames from every client entry point next to a small one: still one transport write each
+	for _, k1 := range []string{"S", "G", "O"} {
+		for _, k2 := range []string{"G", "S"} {
+			for _, pad := range []int{17000, 40000, 70000} {
+				c := wCase{side: "cli", oneP: true,
+					ws:  []wWriter{{kind: k1, pad: pad}, {kind: k2, pad: 150}, {kind: k1, pad: pad + 5}},
+					ops: []string{"s0", "s1", "r1", "r0", "s2", "r2"}}
+				wRunCase(o, fmt.Sprintf("sys%d", n), c, r)
+				n++
+			}
+		}
+	}
 	// compressed replies next to other writers, synchronous and asynchronous writes, with and without the worker pool
 	for _, k1 := range []string{"R", "H", "P", "Z"} {
 		for _, async := range []bool{false, true} {
